@@ -1,6 +1,8 @@
 """C14 - WS-Discovery answers and records exactly what its matching rules prescribe."""
 from __future__ import annotations
 
+import ast
+
 import z3
 
 from pyvc.api import (FnCheck, LoopSpec, Pure, Inline, register, Build, V, Val, SeqVal, IntS, RealS, BoolS, StrS, NONE,
@@ -517,3 +519,179 @@ class OwnMessageIds(FnCheck):
     def post(self, ex, st0, st, outcome, b):
         if outcome[0] == 'ret':
             ex.oblige(st, 'message_is_enqueued', z3.BoolVal(bool(st.ghost.get('enqueued'))))
+
+
+# ---------------------------------------------------------------------------------------------------------------
+# announcements: the Service object that enters the arbitration carries exactly what the message said
+
+SVC = 'sdc11073.wsdiscovery.service'
+
+
+@register
+class ServiceInit(FnCheck):
+    id = 'C14.service_init'
+    prop = 'C14'
+    target = f'{SVC}:Service.__init__'
+    doc = ('Service(types, scopes, x_addrs, epr, instance_id, metadata_version) stores every argument unchanged - in '
+           'particular every integer MetadataVersion including 0 - and starts with message_number 0')
+
+    def setup(self, b):
+        self.o = b.obj('self', cls=(SVC, 'Service'))
+        self.a = {n: b.any(n, maybe_none=True) for n in ('types', 'scopes', 'x_addrs', 'epr', 'instance_id')}
+        self.mv = b.int('metadata_version')
+        return self.o, [self.a[n] for n in ('types', 'scopes', 'x_addrs', 'epr', 'instance_id')], {'metadata_version': self.mv}
+
+    def post(self, ex, st0, st, outcome, b):
+        if outcome[0] == 'exc':
+            ex.oblige(st, 'never_raises', z3.BoolVal(False), info={'exc': repr(outcome[1])})
+            return
+        for arg, fld in (('types', 'types'), ('scopes', 'scopes'), ('x_addrs', '_x_addrs'), ('epr', 'epr'),
+                         ('instance_id', 'instance_id')):
+            ex.oblige(st, f'{fld}_is_the_argument', z3.Select(st.get_arr('f:' + fld), self.o.e) == self.a[arg].e)
+        ex.oblige(st, 'metadata_version_is_the_argument_for_every_integer',
+                  z3.Select(st.get_arr('f:metadata_version'), self.o.e) == Val.int(self.mv.e))
+        ex.oblige(st, 'message_number_starts_at_zero', z3.Select(st.get_arr('f:message_number'), self.o.e) == Val.int(0))
+
+
+class _Announcement(_WsdBase):
+    """Hello / ResolveMatches / ProbeMatches: message object with symbolic members; Service() and the table
+    operations are logged callees (their own contracts: C14.service_init, C14.add_remote_service)."""
+    tag = 'S'
+    opaque_ok = True
+    msg_cls = ''
+    FIELDS = ('Types', 'Scopes', 'XAddrs', 'MetadataVersion')
+    stable_fields = ('Types', 'Scopes', 'XAddrs', 'MetadataVersion', 'EndpointReference', 'Address', 'InstanceId',
+                     '_remote_services', '_local_services')
+
+    def mk_match(self, b, name):
+        st = b.st
+        epr = b.any(name + '.epr')
+        ref = b.obj(name + '.EndpointReference', Address=epr)
+        vals = {f: b.any(f'{name}.{f}', maybe_none=True) for f in self.FIELDS}
+        m = b.obj(name, EndpointReference=ref, **vals)
+        return m, epr, vals
+
+    def setup(self, b):
+        st = b.st
+        slf = self.mk_self(b)
+        self.match, self.epr, self.vals = self.mk_match(b, 'msg')
+        self.has_app_seq = b.bool('has_app_sequence')
+        self.instance_id = b.any('instance_id')
+        st.ghost['calls'] = ()
+        return slf, [b.obj('received_message'), b.any('addr_from')], {}
+
+    def body_of(self, ex, st):
+        return self.match
+
+    def callees(self, ex):
+        def find(ex_, st, args, kwargs):
+            node = st.alloc('AppSequenceNode')
+            return vany(z3.If(self.has_app_seq.e, Val.ref(node.e), Val.none), maybe_none=True)
+
+        def app_seq(ex_, st, args, kwargs):
+            o = st.alloc('AppSequenceType')
+            st.write_field(o, 'InstanceId', self.instance_id)
+            return o
+
+        def from_node(ex_, st, args, kwargs):
+            return self.body_of(ex_, st)
+        def service(ex_, st, args, kwargs):
+            o = st.alloc((SVC, 'Service'))
+            st.ghost['calls'] += (('Service', tuple(st.box(a) for a in args),
+                                   tuple(sorted((k, st.box(v)) for k, v in kwargs.items())), st.box(o)),)
+            return o
+        return {f'{SVC}:Service': Pure(service, name='Service(...) (C14.service_init): logged constructor call'),
+                '*.find': Pure(find, name='header_node.find(AppSequence): present or absent'),
+                'sdc11073.xml_types.wsd_types:AppSequenceType.from_node': Pure(app_seq, name='AppSequenceType.from_node (C05)'),
+                '*.from_node': Pure(from_node, name='<message type>.from_node (C05): object with the members of the message')}
+
+    LOGGED = ('Service', '_add_remote_service', '_remove_remote_service', '_send_resolve')
+    TRACKED = LOGGED + ('from_node',)
+
+    def hooks(self, ex):
+        chk = self
+
+        class H:
+            tracked_names = chk.TRACKED
+
+            @staticmethod
+            def on_loop_havoc(ex_, st, node):
+                st.ghost['calls'] += (('#loop', ex_.loop_ordinal(node)),)
+
+            @staticmethod
+            def on_call(ex_, st, fv, keys, args, kwargs, node):
+                name = getattr(fv, 'name', None) or (fv.fn.name if fv.t == 'repo' else None)
+                if name == 'from_node' and 'AppSequenceType' in ast.unparse(node.func):
+                    o = st.alloc('AppSequenceType')
+                    st.write_field(o, 'InstanceId', chk.instance_id)
+                    return [(st, o)]
+                if name not in chk.LOGGED:
+                    return None
+                rec = (name, tuple(st.box(a) for a in args), tuple(sorted((k, st.box(v)) for k, v in kwargs.items())))
+                st.ghost['calls'] += (rec,)
+                return [(st, NONE)]
+        return H
+
+    def service_ok(self, st, rec, match_vals, epr, allow_zero_instance=True):
+        """rec = ('Service', args, kwargs, obj): the constructor arguments are the members of the message."""
+        name, args, kwargs, obj = rec
+        kw = dict(kwargs)
+        if len(args) != 5 or set(kw) != {'metadata_version'}:
+            return z3.BoolVal(False)
+        iid = z3.If(self.has_app_seq.e, self.instance_id.e, Val.int(0))
+        return z3.And(args[0] == match_vals['Types'].e, args[1] == match_vals['Scopes'].e, args[2] == match_vals['XAddrs'].e,
+                      args[3] == epr.e, args[4] == iid, kw['metadata_version'] == match_vals['MetadataVersion'].e)
+
+
+def _single_announcement_post(self, ex, st0, st, outcome, b):
+    calls = [c for c in st.ghost['calls'] if c[0] in ('Service', '_add_remote_service', '_remove_remote_service')]
+    if outcome[0] == 'exc':
+        ex.oblige(st, 'never_raises_by_itself', z3.BoolVal(outcome[1].cls == '*'), info={'exc': repr(outcome[1])})
+        return
+    if not calls:
+        # only allowed when the AppSequence is missing and missing AppSequences are not tolerated
+        ex.oblige(st, 'ignored_only_without_app_sequence', z3.Not(self.has_app_seq.e))
+        return
+    names = [c[0] for c in calls]
+    ex.oblige(st, 'one_service_built_from_the_message_and_added_once', z3.And(
+        z3.BoolVal(names == ['Service', '_add_remote_service']),
+        self.service_ok(st, calls[0], self.vals, self.epr),
+        calls[1][1][0] == calls[0][3]) if names == ['Service', '_add_remote_service'] else z3.BoolVal(False))
+
+
+@register
+class HandleHello(_Announcement):
+    id = 'C14.handle_hello'
+    target = f'{WSD}:WSDiscovery._handle_received_hello'
+    doc = ('a Hello enters the arbitration exactly once as Service(hello.Types, hello.Scopes, hello.XAddrs, '
+           'hello.EndpointReference.Address, AppSequence.InstanceId, metadata_version=hello.MetadataVersion)')
+    post = _single_announcement_post
+
+
+@register
+class HandleResolveMatches(_Announcement):
+    id = 'C14.handle_resolve_matches'
+    target = f'{WSD}:WSDiscovery._handle_received_resolve_matches'
+    doc = 'a ResolveMatches message enters the arbitration exactly once with the members of its ResolveMatch'
+    post = _single_announcement_post
+
+    def body_of(self, ex, st):
+        o = st.alloc('ResolveMatchesType')
+        st.write_field(o, 'ResolveMatch', self.match)
+        return o
+
+
+@register
+class HandleBye(_Announcement):
+    id = 'C14.handle_bye'
+    target = f'{WSD}:WSDiscovery._handle_received_bye'
+    doc = 'a Bye removes exactly the announced endpoint reference from the table (one _remove_remote_service(epr) call)'
+
+    def post(self, ex, st0, st, outcome, b):
+        if outcome[0] == 'exc':
+            ex.oblige(st, 'never_raises_by_itself', z3.BoolVal(outcome[1].cls == '*'), info={'exc': repr(outcome[1])})
+            return
+        calls = [c for c in st.ghost['calls'] if c[0] in ('Service', '_add_remote_service', '_remove_remote_service')]
+        ex.oblige(st, 'announced_endpoint_removed_once', z3.And(
+            z3.BoolVal(len(calls) == 1 and calls[0][0] == '_remove_remote_service'), calls[0][1][0] == self.epr.e)
+            if len(calls) == 1 else z3.BoolVal(False))
